@@ -133,7 +133,12 @@ defjvp(anp.square, lambda g, ans, x: g * 2 * x)
 defjvp(anp.sqrt, lambda g, ans, x: g * 0.5 * x**-0.5)
 defjvp(
     anp.sinc,
-    lambda g, ans, x: g * (anp.cos(anp.pi * x) * anp.pi * x - anp.sin(anp.pi * x)) / (anp.pi * x**2),
+    lambda g, ans, x: g
+    * anp.where(
+        x == 0,
+        0.0,
+        (anp.cos(anp.pi * x) * anp.pi * x - anp.sin(anp.pi * x)) / (anp.pi * replace_zero(x, 1.0) ** 2),
+    ),
 )
 defjvp(anp.clip, lambda g, ans, x, a_min, a_max: g * anp.logical_and(ans != a_min, ans != a_max))
 defjvp(anp.real_if_close, lambda g, ans, x: match_complex(ans, g))
